@@ -280,7 +280,7 @@ func copySourceItem(
 		value = vslice[0]
 	}
 
-	if string(item.Destination[0]) != "." {
+	if len(item.Destination) == 0 || string(item.Destination[0]) != "." {
 		return &JSONPathFormatError{Path: item.Destination}
 	}
 	trimmedDestination := strings.TrimPrefix(item.Destination, ".")
@@ -389,12 +389,20 @@ func updateStatusConditionsFromOwnedObject(
 			continue
 		}
 
+		condType, typeOk := condMap["type"].(string)
+		condStatus, statusOk := condMap["status"].(string)
+		condReason, reasonOk := condMap["reason"].(string)
+		condMessage, messageOk := condMap["message"].(string)
+		if !typeOk || !statusOk || !reasonOk || !messageOk {
+			return apimachineryerrors.NewBadRequest("malformed condition")
+		}
+
 		newCond := metav1.Condition{
-			Type:               condMap["type"].(string),
-			Status:             metav1.ConditionStatus(condMap["status"].(string)),
+			Type:               condType,
+			Status:             metav1.ConditionStatus(condStatus),
 			ObservedGeneration: objectTemplate.ClientObject().GetGeneration(),
-			Reason:             condMap["reason"].(string),
-			Message:            condMap["message"].(string),
+			Reason:             condReason,
+			Message:            condMessage,
 		}
 		meta.SetStatusCondition(objectTemplate.GetConditions(), newCond)
 	}
